@@ -180,6 +180,12 @@ Theorem c14_params_cover :
 Proof. exact dump_fields_cover. Qed.
 Print Assumptions c14_params_cover.
 
+(* ... and every ServerOptions attribute that process_config fills from [supervisord] *)
+Theorem c14_effective_cover :
+  forall s, map fst (dump_effective s) = map fst effective_options.
+Proof. exact dump_effective_cover. Qed.
+Print Assumptions c14_effective_cover.
+
 (* an accepted program-like section satisfies the modelled constraints
    (contrapositive: a violated constraint => Err) *)
 Theorem c14_constraints :
